@@ -46,6 +46,9 @@ PINNED = {
     "defs_order_unstable": '<svg xmlns="http://www.w3.org/2000/svg" xmlns:xlink="http://www.w3.org/1999/xlink" viewBox="0 0 100 100"><defs><radialGradient id="g0" cx="0.5" cy="0.5" r="0.5" fx="0.3" fy="0.4" gradientTransform="rotate(30)" spreadMethod="repeat"><stop offset="0" stop-color="lime" stop-opacity="0.5"/><stop offset="0.4" stop-color="teal" stop-opacity="0.5"/><stop offset="1" stop-color="red"/></radialGradient><linearGradient id="g1" x1="0" y1="33" x2="62" y2="35" gradientUnits="userSpaceOnUse" gradientTransform="rotate(30)" spreadMethod="reflect"><stop offset="0" stop-color="red" stop-opacity="0.5"/><stop offset="0.4" stop-color="teal"/><stop offset="1" stop-color="purple" stop-opacity="0.5"/></linearGradient><linearGradient id="g2" x1="10%" x2="90%" y2="50%" gradientTransform="scale(1.5 0.75) translate(3 3)" spreadMethod="reflect"><stop offset="0" stop-color="red"/><stop offset="0.4" stop-color="lime"/><stop offset="1" stop-color="yellow"/></linearGradient></defs><g transform="scale(0.8 1.3) rotate(-15)"><circle cx="28" cy="36" r="11" fill="url(#g0)" transform="translate(12.5 -7.25)"/></g><g transform="skewX(15) translate(5 0)"><polygon points="47,58 63,61 59,70 49,65" fill="url(#g1)" transform="translate(12.5 -7.25)"/></g><polygon points="49,14 69,17 65,30 51,25" fill="url(#g1)"/></svg>',
     "gradient_double_rounding": '<svg xmlns="http://www.w3.org/2000/svg" xmlns:xlink="http://www.w3.org/1999/xlink" viewBox="0 0 100 100"><defs><linearGradient id="g0" x1="10%" x2="90%" y2="50%" gradientUnits="userSpaceOnUse" gradientTransform="rotate(30)" spreadMethod="repeat"><stop offset="0" stop-color="lime"/><stop offset="0.4" stop-color="red" stop-opacity="0.5"/><stop offset="1" stop-color="purple"/></linearGradient></defs><circle cx="19" cy="62" r="4" fill="url(#g0)" transform="rotate(20) translate(10,4)"/><g transform="rotate(30 20 20)"><ellipse cx="30" cy="63" rx="4" ry="11" fill="url(#g0)"/></g><g><rect x="59" y="30" width="35" height="34" rx="1" fill="url(#g0)"/></g></svg>',
     "group_style_hides_but_child_paints": '<svg xmlns="http://www.w3.org/2000/svg" viewBox="0 0 10 10"><g style="fill:none"><path fill="red" d="M0,0 L5,0 L5,5 Z"/></g><g style="display:none"><rect width="3" height="3" x="6" display="inline"/></g></svg>',
+    "stroke_width_zero": '<svg xmlns="http://www.w3.org/2000/svg" viewBox="0 0 20 20"><path d="M2,2 L18,2 L18,18 Z" fill="none" stroke="red" stroke-width="0"/><rect x="1" y="12" width="4" height="4" fill="blue"/></svg>',
+    "stroke_opacity_above_one": '<svg xmlns="http://www.w3.org/2000/svg" viewBox="0 0 20 20"><path d="M2,10 L18,10" fill="none" stroke="red" stroke-width="4" stroke-opacity="1.5" opacity="0.5"/><rect x="1" y="14" width="4" height="4" fill="blue" fill-opacity="3" opacity="0.5"/></svg>',
+    "stroke_gradient_under_transform": '<svg xmlns="http://www.w3.org/2000/svg" viewBox="0 0 100 100"><defs><linearGradient id="g" gradientUnits="userSpaceOnUse" x1="0" x2="40"><stop offset="0" stop-color="red"/><stop offset="1" stop-color="blue"/></linearGradient></defs><g transform="translate(50 0)"><path d="M0,22 L40,22" fill="none" stroke="url(#g)" stroke-width="10"/></g></svg>',
     "clip_rule_on_the_clippath": '<svg xmlns="http://www.w3.org/2000/svg" viewBox="0 0 10 10"><clipPath id="c" clip-rule="evenodd"><path d="M0,0 H8 V8 H0 Z M2,2 H6 V6 H2 Z"/></clipPath><rect width="9" height="9" clip-path="url(#c)" fill="red"/></svg>',
     "use_clip_target_transform": '<svg xmlns="http://www.w3.org/2000/svg" xmlns:xlink="http://www.w3.org/1999/xlink" viewBox="0 0 30 30"><clipPath id="c"><rect width="10" height="10"/></clipPath><defs><rect id="t" width="20" height="20" transform="translate(5 0)"/></defs><use xlink:href="#t" clip-path="url(#c)"/></svg>',
     "two_nested_svgs_clip_ids": f'<svg {NS} viewBox="0 0 100 100"><svg x="0" y="0" width="40" height="40"><rect width="60" height="60" fill="red"/></svg><svg x="50" y="50" width="40" height="40"><rect width="60" height="60" fill="blue"/></svg></svg>',
